@@ -8,7 +8,7 @@ Heap order after arbitrary operation histories is a runtime-shape property of a 
 import ast
 
 from ..astx import walk_no_nested, dotted, call_name, self_attr, func_params, dominating_conditions, flatten_conditions, \
-    parent, ancestors, block_of
+    parent, ancestors, block_of, inline_stmt_calls
 from ..core import norm, Inconclusive
 from .. import pat
 
@@ -25,6 +25,30 @@ def aug_n(fn):
 
 def branches(node):
     return [a for a in ancestors(node) if isinstance(a, (ast.If, ast.While, ast.For, ast.IfExp, ast.ExceptHandler))]
+
+
+def _selects_smallest_root(co):
+    """A loop over the whole degree table that assigns `self._min = E` under `E <= self._min`, E being the loop's element."""
+    tabs = {s_.targets[0].id for s_ in walk_no_nested(co) if isinstance(s_, ast.Assign) and isinstance(s_.targets[0], ast.Name)
+            and isinstance(s_.value, ast.BinOp) and isinstance(s_.value.left, ast.List)}
+    for l in walk_no_nested(co):
+        if not (isinstance(l, ast.For) and isinstance(l.target, ast.Name)):
+            continue
+        it = ast.unparse(l.iter).replace(" ", "")
+        elem = None
+        for t in tabs:
+            if it == t:
+                elem = l.target.id
+            elif it in (f"range(0,len({t}))", f"range(len({t}))"):
+                elem = f"{t}[{l.target.id}]"
+        if elem is None:
+            continue
+        for a in ast.walk(l):
+            if isinstance(a, ast.Assign) and len(a.targets) == 1 and self_attr(a.targets[0]) == "_min" and ast.unparse(a.value) == elem:
+                facts = {ast.unparse(t_).replace(" ", "") for t_, pol in flatten_conditions(dominating_conditions(a, stop=l)) if pol}
+                if f"{elem}<=self._min".replace(" ", "") in facts:
+                    return True
+    return False
 
 
 def r16h(ctx):
@@ -117,8 +141,13 @@ def run(ctx):
                      "self._extract_min()` precedes the read")
     for name in ("peek", "pop"):
         f = f_of(name)
-        first = f.node.body[1] if isinstance(f.node.body[0], ast.Expr) and isinstance(f.node.body[0].value, ast.Constant) else f.node.body[0]
-        ok = isinstance(first, ast.While) and ast.unparse(first.test).replace(" ", "") == "self._minisnotNoneandself._min.deleted" \
+        flat = inline_stmt_calls(m, q, f.node, keep=("_extract_min",))       # the loop may sit in a helper both methods call
+        body = [s_ for s_ in flat.body if not (isinstance(s_, ast.Expr) and isinstance(s_.value, ast.Constant))]
+        first = body[0]
+        conj = {ast.unparse(v).replace(" ", "") for v in (first.test.values if isinstance(first, ast.While) and isinstance(first.test, ast.BoolOp)
+                                                          and isinstance(first.test.op, ast.And) else [])}
+        ok = isinstance(first, ast.While) and conj == {"self._minisnotNone", "self._min.deleted"} \
+            and ast.unparse(first.test.values[0]).replace(" ", "") == "self._minisnotNone" \
             and any(isinstance(c, ast.Call) and self_attr(c.func) == "_extract_min" for c in ast.walk(first))
         if ok:
             ctx.proved("R16b", fl, f"FibonacciHeap.{name}", first, f"{name} skips deleted", "deleted minima are extracted before the answer is read")
@@ -205,7 +234,7 @@ def run(ctx):
     else:
         ctx.violation("R16g", fl, "FibonacciHeap.decrease_key", dk.node, "decrease only",
                       "decrease_key no longer rejects a larger key: heap order below the node can be violated silently")
-    if pat.has(f"if Y is not None and {xk} < Y:\n    self._cut({xk}, Y)\n    self._cascading_cut(Y)", dk.node, stmts=True):
+    if pat.has(f"if Y is not None and {xk} < Y:\n    self._cut({xk}, Y)\n    self._cascading_cut(Y)", inline_stmt_calls(m, q, dk.node, keep=("_cut", "_cascading_cut")), stmts=True):
         ctx.proved("R16f", fl, "FibonacciHeap.decrease_key", dk.node, "cut when below parent", "a node smaller than its parent is cut to the root list")
     else:
         ctx.violation("R16f", fl, "FibonacciHeap.decrease_key", dk.node, "cut when below parent",
@@ -218,7 +247,7 @@ def run(ctx):
     co = f_of("_consolidate")
     swap = pat.first("if Y < X:\n    X, Y = Y, X", co.node)[1]
     if swap is not None and bool(pat.find_expr(f"self._link({swap['Y']}, {swap['X']})", co.node)) \
-            and pat.has("if A[I] <= self._min:\n    self._min = A[I]", co.node, stmts=True):
+            and _selects_smallest_root(co.node):
         ctx.proved("R16f", fl, "FibonacciHeap._consolidate", co.node, "consolidate keeps order", "the larger root is linked under the smaller; _min = smallest root")
     else:
         ctx.violation("R16f", fl, "FibonacciHeap._consolidate", co.node, "consolidate keeps order",
